@@ -208,6 +208,13 @@ def undirected_items(tier):
     for r in range(1, me + 1):
         for es in itertools.combinations(c4, r):
             yield ("U", (4, U4, es, "sorted"))
+    # labels that are not 0..N-1 / whose hash order differs from their numeric order (negative, 8, 16)
+    for lab in ({1: 1, 2: 2, 3: 3, 4: 8}, {1: -3, 2: 0, 3: 5, 4: 16}, {1: 16, 2: 8, 3: 3, 4: -1}):
+        for r in (2, 3):
+            for es in itertools.combinations(c4, r):
+                if tier == "quick" and not any(len(e) == 3 for e in es):
+                    continue
+                yield ("U", (4, tuple(sorted(lab.values())), tuple(tuple(lab[v] for v in e) for e in es), "rotated"))
     U5 = (1, 2, 3, 4, 5)
     c5 = [c for r in (2, 3, 4) for c in itertools.combinations(U5, r)]
     if tier == "quick":
